@@ -7,7 +7,6 @@ import registry
 
 NA_FIXED = {
     "C03": "position-exact rewrite semantics is cursor arithmetic over all rule x word pairs; no necessary condition is visible in code shape beyond what the type checker enforces (static analysis not applicable, see DESIGN.md §3 C03)",
-    "C09": "render/parse round trip depends on per-bundle diacritic search behaviour (~400k values); only the symbol tables are structural and those are checked under C13 (DESIGN.md §3 C09)",
 }
 ALL = ["C%02d" % i for i in range(1, 21)]
 
